@@ -1,5 +1,12 @@
 #!/bin/sh
 # Nothing to build: the framework is pure Python run by /venv/bin/python against /repo/src.
+# Setup verifies the imports and validates the exact LP oracle against brute-force enumeration.
 cd "$(dirname "$0")" || exit 1
 mkdir -p out/logs out/replays evidence
-PYTHONPATH="$PWD:/repo/src" /venv/bin/python -c "import mc, cobra, swiglpk, optlang; mc.assert_repo_cobra(); print('setup ok', cobra.__version__)"
+PYTHONPATH="$PWD:/repo/src" /venv/bin/python -c "
+import mc, cobra, swiglpk, optlang, libsbml
+mc.assert_repo_cobra()
+from mc import exactlp
+n = exactlp.selftest()
+print('setup ok: cobra', cobra.__version__, 'from', cobra.__file__, '; exactlp self-test compared', n, 'LPs with brute force')
+"
